@@ -1,148 +1,88 @@
-(* Model of src/systemd_unit/parser.rs.  The input is the list of remaining characters (head = self.cur).
-   Line/column bookkeeping is not modelled (it only appears in error text). *)
-From QV Require Import Model.Base Generated.Tables Model.Quote Model.Unquote Model.PortRange Model.Unit.
+(* Model of src/systemd_unit/parser.rs (Parser::parse_unit and everything below it) as ONE one-character-per-step
+   machine, so that the whole parser is structurally recursive on the input: no fuel, termination by construction.
+   The states mirror the control flow of the recursive-descent code:
+     PTop          parse_unit loop, outside any section
+     PCommentTop   parse_comment called from parse_unit
+     PHeader name  parse_section_header after '[' (name read so far)
+     PBody         parse_section loop
+     PCommentBody  parse_comment called from parse_section
+     PKey key      parse_key (key read so far)
+     PAfterKey     skip_chars before '='
+     PAfterEq      skip_chars after '='
+     PValue ...    parse_value (the value machine of Model/Lex.v)
+   Entries are validated (add_raw -> unquote_value) and added as soon as their value ends; the Rust code adds them
+   when the section ends.  Every error makes the whole parse fail in both, so the results coincide. *)
+From QV Require Import Model.Base Generated.Tables Model.Quote Model.Unquote Model.PortRange Model.Unit Model.Lex.
 Open Scope N_scope.
 
-(* parse_until_any_of *)
-Fixpoint span_until (stop : N -> bool) (cs : str) : str * str :=
-  match cs with
-  | [] => ([], [])
-  | c :: r => if stop c then ([], cs) else let (a, b) := span_until stop r in (c :: a, b)
+Inductive pstate :=
+| PTop
+| PCommentTop
+| PHeader (name : str)
+| PBody (sec : str)
+| PCommentBody (sec : str)
+| PKey (sec key : str)
+| PAfterKey (sec key : str)
+| PAfterEq (sec key : str)
+| PValue (sec key : str) (m : vmode) (ign : nat) (acc : str).
+
+(* result of a step: error, or next state and unit *)
+Definition pres := option (pstate * unit).
+
+Definition finish_entry (u : unit) (sec key acc : str) : option unit := unit_add_raw u sec key (trim_end acc).
+
+(* parse_section loop looking at c *)
+Definition body_step (sec : str) (u : unit) (c : N) : pres :=
+  if is_comment_start c then Some (PCommentBody sec, u)
+  else if c =? cLB then Some (PHeader [], u)
+  else if is_ascii_whitespace c then Some (PBody sec, u)
+  else if key_stop c then (if c =? cEQ then Some (PAfterEq sec [], u) else None)
+  else if is_key_char c then Some (PKey sec [c], u) else None.
+
+Definition value_start (sec key : str) (u : unit) (c : N) : pres :=
+  match value_step VNormal O [] c with
+  | Some (m, ign, acc) => Some (PValue sec key m ign acc, u)
+  | None => match finish_entry u sec key [] with Some u' => body_step sec u' c | None => None end
   end.
 
-Fixpoint skip_while (p : N -> bool) (cs : str) : str :=
-  match cs with c :: r => if p c then skip_while p r else cs | [] => [] end.
-
-Definition is_comment_start (c : N) : bool := (c =? cHASH) || (c =? cSEMI).
-Definition is_blank (c : N) : bool := (c =? cSP) || (c =? cTAB).
-
-(* char::is_alphanumeric: exact on ASCII; beyond ASCII only the Latin letters U+00C0..U+02AF (minus the two
-   operators) are recognised -- an approximation recorded in DESIGN.md (keys in the theorems are ASCII) *)
-Definition is_alnum (c : N) : bool :=
-  ((48 <=? c) && (c <=? 57)) || ((65 <=? c) && (c <=? 90)) || ((97 <=? c) && (c <=? 122)) ||
-  ((192 <=? c) && (c <=? 687) && negb (c =? 215) && negb (c =? 247)) || (c =? 170) || (c =? 181) || (c =? 186).
-Definition is_key_char (c : N) : bool := is_alnum c || (c =? cDASH).
-Definition key_stop (c : N) : bool := (c =? cEQ) || (c =? cSP) || (c =? cTAB) || (c =? cNL) || (c =? cCR).
-
-(* parse_comment: skip to the next newline (not consumed) *)
-Definition skip_comment (cs : str) : str := snd (span_until (fun c => c =? cNL) cs).
-
-(* ---- parse_value as a machine ---- *)
-Inductive vmode :=
-| VNormal                 (* neither flag set *)
-| VBackslash              (* backslash = true *)
-| VCont                   (* line_continuation = true *)
-| VComment.               (* inside an interspersed comment; then line_continuation again *)
-
-(* one step; [ign] = line_continuation_ignored_spaces.  Result: None = stop BEFORE this character *)
-Definition value_step (m : vmode) (ign : nat) (acc : str) (c : N) : option (vmode * nat * str) :=
-  match m with
-  | VBackslash =>
-      if c =? cSP then Some (VBackslash, S ign, acc)
-      else if c =? cNL then Some (VCont, ign, acc ++ c_LINE_CONTINUATION_REPLACEMENT)
-      else Some (VNormal, ign, acc ++ [cBS] ++ repeat cSP ign ++ [c])
-  | VCont =>
-      if is_comment_start c then Some (VComment, O, acc)
-      else if c =? cNL then None
-      else if c =? cLB then None
-      else if c =? cBS then Some (VBackslash, O, acc)
-      else Some (VNormal, O, acc ++ [c])
-  | VComment =>
-      if c =? cNL then Some (VCont, ign, acc) else Some (VComment, ign, acc)
-  | VNormal =>
-      if c =? cBS then Some (VBackslash, ign, acc)
-      else if c =? cNL then None
-      else Some (VNormal, ign, acc ++ [c])
-  end.
-
-Fixpoint value_run (m : vmode) (ign : nat) (acc : str) (cs : str) : str * str :=
-  match cs with
-  | [] => (acc, [])
-  | c :: r => match value_step m ign acc c with
-              | None => (acc, cs)
-              | Some (m', ign', acc') => value_run m' ign' acc' r
-              end
-  end.
-
-Definition parse_value (cs : str) : str * str :=
-  let (v, rest) := value_run VNormal O [] cs in (trim_end v, rest).
-
-(* parse_entry: key, blanks, '=', blanks, value *)
-Definition parse_entry (cs : str) : option (str * str * str) :=
-  let (key, r1) := span_until key_stop cs in
-  if negb (forallb is_key_char key) then None else
-  match skip_while is_blank r1 with
-  | c :: r2 => if c =? cEQ then
-                 let (v, r3) := parse_value (skip_while is_blank r2) in Some (key, v, r3)
-               else None
-  | [] => None
-  end.
-
-(* parse_section_header *)
-Definition parse_section_header (cs : str) : option (str * str) :=
-  match cs with
-  | c :: r =>
-      if c =? cLB then
-        let (name, r1) := span_until (fun c => (c =? cRB) || (c =? cNL)) r in
-        match r1 with
-        | c1 :: r2 => if (c1 =? cRB) then match name with [] => None | _ => Some (name, r2) end else None
-        | [] => None
-        end
-      else None
-  | [] => None
-  end.
-
-(* the entry loop of parse_section *)
-Fixpoint section_body (fuel : nat) (cs : str) (acc : entries) : res (entries * str) :=
-  match fuel with
-  | O => OutOfFuel
-  | S f =>
-      match cs with
-      | [] => Ok (acc, [])
-      | c :: r =>
-          if is_comment_start c then section_body f (skip_comment cs) acc
-          else if c =? cLB then Ok (acc, cs)
-          else if is_ascii_whitespace c then section_body f r acc
-          else match parse_entry cs with
-               | None => Err
-               | Some (k, v, rest) => section_body f rest (acc ++ [(k, v)])
-               end
+Definition pstep (st : pstate) (u : unit) (c : N) : pres :=
+  match st with
+  | PTop =>
+      if is_comment_start c then Some (PCommentTop, u)
+      else if c =? cLB then Some (PHeader [], u)
+      else if is_ascii_whitespace c then Some (PTop, u) else None
+  | PCommentTop => if c =? cNL then Some (PTop, u) else Some (PCommentTop, u)
+  | PHeader name =>
+      if c =? cRB then match name with [] => None | _ => Some (PBody name, ensure_section u name) end
+      else if c =? cNL then None else Some (PHeader (name ++ [c]), u)
+  | PBody sec => body_step sec u c
+  | PCommentBody sec => if c =? cNL then Some (PBody sec, u) else Some (PCommentBody sec, u)
+  | PKey sec key =>
+      if key_stop c then
+        (if is_blank c then Some (PAfterKey sec key, u) else if c =? cEQ then Some (PAfterEq sec key, u) else None)
+      else if is_key_char c then Some (PKey sec (key ++ [c]), u) else None
+  | PAfterKey sec key =>
+      if is_blank c then Some (PAfterKey sec key, u) else if c =? cEQ then Some (PAfterEq sec key, u) else None
+  | PAfterEq sec key => if is_blank c then Some (PAfterEq sec key, u) else value_start sec key u c
+  | PValue sec key m ign acc =>
+      match value_step m ign acc c with
+      | Some (m', ign', acc') => Some (PValue sec key m' ign' acc', u)
+      | None => match finish_entry u sec key acc with Some u' => body_step sec u' c | None => None end
       end
   end.
 
-Fixpoint add_raw_all (u : unit) (sec : str) (es : entries) : option unit :=
-  match es with
-  | [] => Some u
-  | (k, v) :: r => match unit_add_raw u sec k v with Some u' => add_raw_all u' sec r | None => None end
+Definition pfinish (st : pstate) (u : unit) : option unit :=
+  match st with
+  | PTop | PCommentTop | PBody _ | PCommentBody _ => Some u
+  | PHeader _ | PKey _ _ | PAfterKey _ _ => None
+  | PAfterEq sec key => finish_entry u sec key []
+  | PValue sec key _ _ acc => finish_entry u sec key acc
   end.
 
-Fixpoint unit_loop (fuel : nat) (cs : str) (u : unit) : res unit :=
-  match fuel with
-  | O => OutOfFuel
-  | S f =>
-      match cs with
-      | [] => Ok u
-      | c :: r =>
-          if is_comment_start c then unit_loop f (skip_comment cs) u
-          else if c =? cLB then
-            match parse_section_header cs with
-            | None => Err
-            | Some (name, r1) =>
-                match section_body f r1 [] with
-                | Ok (es, r2) =>
-                    match add_raw_all (ensure_section u name) name es with
-                    | Some u' => unit_loop f r2 u'
-                    | None => Err
-                    end
-                | Err => Err
-                | OutOfFuel => OutOfFuel
-                end
-            end
-          else if is_ascii_whitespace c then unit_loop f r u
-          else Err
-      end
+Fixpoint prun (st : pstate) (u : unit) (cs : str) : option unit :=
+  match cs with
+  | [] => pfinish st u
+  | c :: r => match pstep st u c with Some (st', u') => prun st' u' r | None => None end
   end.
 
-(* every iteration of either loop consumes at least one character, except that a comment at a newline
-   leaves the newline for the next iteration: 2 * length + 2 always suffices (lemma in Proofs) *)
-Definition parse_unit (cs : str) : res unit := unit_loop (2 * length cs + 2) cs [].
+Definition parse_unit (cs : str) : option unit := prun PTop [] cs.
